@@ -158,11 +158,79 @@ def strip_queries(text):
     return "\n".join(l for l in text.split("\n") if not l.startswith(("(get-model", "(get-value", "(get-assignment"))) + "\n"
 
 
+def prop_history(rng):
+    """Dense propositional push/pop history: 2-literal clauses over 3 variables (unsatisfiable sets that only search finds, at the
+    base level and at pushed levels, in alternation), so that unsat answers, conflict frames and their reset meet in one history."""
+    vs = ["p0", "p1", "p2"]
+    lines = ["(set-logic QF_UF)"] + ["(declare-fun %s () Bool)" % v for v in vs]
+    depth = 0
+
+    def clause():
+        a, b = rng.sample(vs, 2)
+        return "(assert (or %s %s))" % tuple(v if rng.random() < 0.5 else "(not %s)" % v for v in (a, b))
+
+    def bundle():
+        a, b = rng.sample(vs, 2)
+        cs = ["(assert (or %s %s))" % (x, y) for x in (a, "(not %s)" % a) for y in (b, "(not %s)" % b)]
+        rng.shuffle(cs)
+        return cs
+
+    nchecks = 0
+    if rng.random() < 0.5:
+        # structured: unsat under pushed levels, pop, unsat bundle lower down, push again, check, pop, check
+        for rnd in range(rng.randint(1, 2)):
+            a = rng.randint(1, 2)
+            lines.append("(push %d)" % a)
+            depth += a
+            lines += [clause() for _ in range(rng.randint(0, 2))] + bundle() + ["(check-sat)"]
+            c = rng.randint(1, depth)
+            lines.append("(pop %d)" % c)
+            depth -= c
+            lines += [clause() for _ in range(rng.randint(0, 2))]
+            if rng.random() < 0.7:
+                lines += bundle()
+            b = rng.randint(1, 3)
+            lines.append("(push %d)" % b)
+            depth += b
+            lines += [clause() for _ in range(rng.randint(0, 1))] + ["(check-sat)"]
+            c = rng.randint(1, min(depth, 3))
+            lines.append("(pop %d)" % c)
+            depth -= c
+            lines.append("(check-sat)")
+    for _ in range(rng.randint(8, 18) if len(lines) < 8 else rng.randint(0, 4)):
+        k = rng.random()
+        if k < 0.2:
+            n = rng.randint(1, 2)
+            lines.append("(push %d)" % n)
+            depth += n
+        elif k < 0.4 and depth > 0:
+            n = rng.randint(1, min(2, depth))
+            lines.append("(pop %d)" % n)
+            depth -= n
+        elif k < 0.6:
+            lines.append("(check-sat)")
+            nchecks += 1
+        elif k < 0.75:
+            lines += bundle()
+        else:
+            lines.append(clause())
+    while depth > 0:
+        lines.append("(check-sat)")
+        n = rng.randint(1, depth)
+        lines.append("(pop %d)" % n)
+        depth -= n
+    lines.append("(check-sat)")
+    return "\n".join(lines) + "\n", dict(logic="QF_UF", incremental=True, nchecks=nchecks + 1)
+
+
 def one(args):
     seed, idx = args
     rng = random.Random(seed * 15485863 + idx)
-    text, meta = scriptgen.gen_script(rng, incremental=True, queries=("model",) if rng.random() < 0.7 else (), big=False,
-                                      numprefix=rng.choice(["v", "x"]), named=False)
+    if idx >= 1000000:
+        text, meta = prop_history(rng)
+    else:
+        text, meta = scriptgen.gen_script(rng, incremental=True, queries=("model",) if rng.random() < 0.7 else (), big=False,
+                                          numprefix=rng.choice(["v", "x"]), named=False)
     tr = os.path.join(vlib.BUILD, "tmp", "c04_%d_%d.trace" % (os.getpid(), idx))
     os.makedirs(os.path.dirname(tr), exist_ok=True)
     rc, res, out, err = sc.run_aligned(text, timeout=20, trace=tr)
@@ -201,7 +269,7 @@ def run(ctx):
         return
     n = 140 if ctx.quick else 3000
     with cf.ThreadPoolExecutor(max_workers=12) as ex:
-        results = list(ex.map(one, [(ctx.seed, i) for i in range(n)]))
+        results = list(ex.map(one, [(ctx.seed, i) for i in range(n)] + [(ctx.seed, 1000000 + i) for i in range(n // 2)]))
     # 1. exact bookkeeping correspondence (model replay of the traced op sequences)
     lines, keep = [], []
     for r in results:
